@@ -251,7 +251,11 @@ specialisation matches the period type as written, so a non-reduced spelling suc
 def corrUnit (r : Rep) (p : Period) : Option String × Mag :=
   match special? r p with
   | some (n, m) => (some n, m)
-  | none => (none, ratioMag p)
+  | none =>
+    -- `Seconds{} * M` is `ComputeScaledUnit<Seconds, M>`: `Seconds` itself for `M = Magnitude<>`
+    -- (unit_of_measure.hh:307-308), `ScaledUnit<Seconds, M>` otherwise
+    let m := ratioMag p
+    (if m = [] then some "Seconds" else none, m)
 
 /-- `as_quantity(d)` (quantity.hh:84-101): `make_quantity<Unit>(extract_value(d))`, `Rep = RepT`. -/
 def asQuantity (d : Duration) : Quantity :=
@@ -435,29 +439,43 @@ def castToCommon (R : Rounding) (cm : Mag) (cr : Rep) (q : Quantity) : Res Val :
       (mulRep R cr v0 one).bind fun v1 =>                -- rep_cast: apply_magnitude(…, Magnitude<>)
         (getValueRep R cr sf).bind fun k => mulRep R cr v1 k)
 
-/-- Whether `q1 op q2` is well-formed: both `cast_to_common_type` calls pass the `static_assert`
-of the unit-only `as`. -/
-def mixedCompiles (q1 q2 : Quantity) : Outcome Unit :=
+/-- Overload resolution for `q1 op q2` finds, by ADL, the hidden friends `op(Q, Q)` of both
+operand classes (quantity.hh:250-264) and has to decide whether the other operand converts
+implicitly to `Q`.  That question instantiates `ConstructionPolicy<…>::PermitImplicitFrom` and is
+itself ill-formed in the region of finding F2 (integral reps, integer factor that does not fit the
+target rep).  When it has an answer the friend is at best viable through a user-defined conversion
+and loses to the exact-match template, so only well-formedness matters. -/
+def friendsWellFormed (q1 q2 : Quantity) : Outcome Unit :=
+  match permitImplicitFrom q1.mag q1.rep q2.mag q2.rep with
+  | .hard w => .hard w
+  | .ok _ =>
+    match permitImplicitFrom q2.mag q2.rep q1.mag q1.rep with
+    | .hard w => .hard w
+    | .ok _ => .ok ()
+
+/-- What the documentation promises for `q1 op q2`: both `cast_to_common_type` calls pass the
+`static_assert` of the unit-only `as` (the overflow-threshold policy on the common rep). -/
+def policyCompiles (q1 q2 : Quantity) : Outcome Unit :=
   let (cm, cr) := commonQuantity q1 q2
   match asUnitOnlyOk cr (Mag.div q1.mag cm) with
   | .hard w => .hard w
   | .ok () => asUnitOnlyOk cr (Mag.div q2.mag cm)
+
+/-- Whether `q1 op q2` is well-formed on the code as it is. -/
+def mixedCompiles (q1 q2 : Quantity) : Outcome Unit :=
+  match friendsWellFormed q1 q2 with
+  | .hard w => .hard w
+  | .ok () => policyCompiles q1 q2
 
 /-- `q1 op q2` through `detail::using_common_type`. -/
 def quantityOp (R : Rounding) (op : Op) (q1 q2 : Quantity) : Res OpVal :=
   let (cm, cr) := commonQuantity q1 q2
   (castToCommon R cm cr q1).bind fun a => (castToCommon R cm cr q2).bind fun b => applyOp R cr op a b
 
-/-- Whether `q op d` / `d op q` is well-formed for a `QLike` duration `d`.  Besides the QLike
-template (which forwards to `q op as_quantity(d)`), overload resolution finds the hidden friends
-`op(Quantity, Quantity)` of `q`'s class by ADL and must decide whether `d` converts implicitly to
-`q`'s type; that question instantiates `is_convertible<CorrespondingQuantityT<D>, Q>` and is itself
-ill-formed in the region of finding F2.  When it has an answer the friend is at best viable through
-a user-defined conversion and loses to the exact-match QLike template. -/
-def mixedCompilesQD (q : Quantity) (d : Duration) : Outcome Unit :=
-  match durationAccepted q.mag q.rep d with
-  | .hard w => .hard w
-  | .ok _ => mixedCompiles q (asQuantity d)
+/-- Whether `q op d` / `d op q` is well-formed for a `QLike` duration `d`: the QLike template
+forwards to `q op as_quantity(d)`; the hidden friends of `q`'s class met on the way ask whether `d`
+converts to `q`'s type, which is `durationAccepted` = the first question of `friendsWellFormed`. -/
+def mixedCompilesQD (q : Quantity) (d : Duration) : Outcome Unit := mixedCompiles q (asQuantity d)
 
 /-- `q op d` and `d op q` for a `QLike` duration (quantity.hh:766-832). -/
 def mixedOpQD (R : Rounding) (op : Op) (q : Quantity) (d : Duration) : Res OpVal :=
